@@ -33,7 +33,7 @@ LEVEL_NOTE = (
 )
 RULE = (
     "cases = generated contingent problem recipes (hidden Boolean fluents under unknown / oneof / or constraints incl. negated "
-    "literals, per-fluent defaults true/false/numeric/object, per-type defaults, explicit values, Boolean / bounded-int / object "
+    "literals and pairs of constraints over exactly the same ground fluents that differ in kind / polarity, per-fluent defaults true/false/numeric/object, per-type defaults, explicit values, Boolean / bounded-int / object "
     "non-hidden fluents, ordinary actions with conditional / forall / increase effects, sensing actions with parameters) x "
     "SEEDS random seeds (random.seed) x one random action sequence of length <= 6 per seed. One evaluation = one judged "
     "initial state, apply, observation or goal query. distinct_nontrivial = distinct (problem, seed) pairs in which some "
@@ -128,16 +128,37 @@ def constraint_ok(c, s):
     return sum(vals) == 1 if c[0] == "oneof" else any(vals)
 
 
-def count_models(rec, cap=4096):
+def count_models(rec, cap=4096, constraints=None):
     hk = sorted(hidden_keys(rec))
     if 2 ** len(hk) > cap:
         return None
+    cs = rec["constraints"] if constraints is None else constraints
     n = 0
     for combo in product([False, True], repeat=len(hk)):
         s = dict(zip(hk, combo))
-        if all(constraint_ok(c, s) for c in rec["constraints"]):
+        if all(constraint_ok(c, s) for c in cs):
             n += 1
     return n
+
+
+def same_fluent_pairs(rec, nmodels):
+    """Coverage class: pairs of distinct oneof/or constraints over exactly the same ground fluents (they differ in kind and/or
+    polarity). Returns (number of such pairs, number of pairs in which NEITHER constraint is implied by the remaining
+    constraints, i.e. dropping either one admits hidden states the problem excludes)."""
+    cs = [c for c in rec["constraints"] if c[0] != "unknown"]
+    sig = [(c[0], tuple(sorted(lit_key(l) for l in c[1]))) for c in cs]
+    flu = [frozenset(k for _, k in sg[1]) for sg in sig]
+    pairs = needed = 0
+    for i in range(len(cs)):
+        for j in range(i + 1, len(cs)):
+            if flu[i] != flu[j] or sig[i] == sig[j]:
+                continue
+            pairs += 1
+            if nmodels:
+                wo = [count_models(rec, constraints=[c for c in rec["constraints"] if c is not cs[x]]) for x in (i, j)]
+                if all(w is not None and w > nmodels for w in wo):
+                    needed += 1
+    return pairs, needed
 
 
 # ---- the experiment ----------------------------------------------------------------------------------------------------
@@ -158,9 +179,17 @@ def run_case(key, tier, res, only_seed=None):
         res.count("feature:" + ft)
     declared, undeclared, tdef = declared_values(rec)
     nmodels = count_models(rec)
+    npairs, nneeded = same_fluent_pairs(rec, nmodels)
+    if npairs:
+        res.count("problems_with_two_constraints_over_the_same_fluents")
     if nmodels == 0:
+        # outside the property: no hidden state can satisfy all the constraints (counted, not judged)
         res.count("problems_with_unsatisfiable_constraints")
+        if npairs:
+            res.count("problems_with_unsatisfiable_constraints:same-fluent-pair")
         return
+    if nneeded:
+        res.count("problems_with_same_fluent_constraint_pair_each_needed")
     if nmodels is not None and nmodels >= 2:
         res.count("problems_with_2+_models")
     gfl = seqsem.ground_fluents(pb)
@@ -172,7 +201,10 @@ def run_case(key, tier, res, only_seed=None):
     for si in range(b["seeds"]):
         if only_seed is not None and si != only_seed:
             continue
+        judged0 = res.counters.get("hidden_states_judged", 0)
         hs = one_run(pb, rec, key, tier, si, b, declared, undeclared, tdef, gfl, insts, res, pid, reported)
+        if nneeded and res.counters.get("hidden_states_judged", 0) > judged0:
+            res.count("hidden_states_judged:same-fluent-constraint-pair-each-needed")
         if hs is None:
             break  # a violation / rejection that does not depend on the seed: do not repeat it for every seed
         drawn.add(hs)
@@ -450,6 +482,9 @@ def thresholds(m):
         ("initial_values_judged:type-default", 50),
         ("problems_with_2+_models", 20),
         ("problems_with_2+_distinct_hidden_states_drawn", 10),
+        # two constraints over exactly the same ground fluents (different kind / polarity), neither implied by the rest
+        ("problems_with_same_fluent_constraint_pair_each_needed", 10),
+        ("hidden_states_judged:same-fluent-constraint-pair-each-needed", 60),
     ):
         if c.get(k, 0) < n:
             out.append(f"counter {k} = {c.get(k, 0)} < {n}")
